@@ -266,7 +266,7 @@ pub fn run(ctx: &Ctx) -> Outcome {
     out.assume("WAL sync mode EveryWrite; a crash preserves exactly the bytes written to the WAL directory and the object store at that instant");
     out.assume("S3-style PUT atomicity (no partial objects); InMemory conditional PUT trusted");
     let root = util::scratch_dir("c01");
-    let executions: u64 = if ctx.thorough { 14 * 60 } else { 64 };
+    let executions: u64 = if ctx.thorough { 14 * 12 } else { 64 };
     for idx in ctx.my_cases(executions) {
         let mut rng = ctx.rng("C01", idx);
         if ctx.thorough {
@@ -275,7 +275,7 @@ pub fn run(ctx: &Ctx) -> Outcome {
             let mut p0 = base_plan.clone();
             p0.faults.clear();
             let n = one_execution(ctx, &mut out, p0, rng.fork(1), idx, "base", &root);
-            let stride = 1 + n / 24; // at most ~24 positions x 2 modes per execution
+            let stride = 1 + n / 16; // at most ~24 positions x 2 modes per execution
             let mut k = idx % stride;
             while k < n {
                 for m in [FaultMode::Before, FaultMode::After] {
